@@ -221,7 +221,9 @@ ALL_GENS = [("Gen_Selector", "sel", 16, 24, ["EmitSel"], 1000), ("Gen_Window", "
             ("Gen_Agg", "agg", 1, 1, ["EmitAgg"], 1000), ("Gen_Bin", "bin", 1, 1, ["EmitBin"], 1000),
             ("Gen_Func", "fn", 1, 1, ["EmitFn"], 1000), ("Gen_Compose", "cmp", 8, 8, ["EmitCmp"], 1000),
             # many series (0..40 of one metric, several per group and per shard) under a basket of 24 queries
-            ("Shards", "shard", 2, 1, ["EmitShard"], 1000)]
+            ("Shards", "shard", 2, 1, ["EmitShard"], 1000),
+            # degenerate / colliding / extreme inputs (holes, hand-overs between metrics, histograms, 1e308, denormals)
+            ("Gen_WF", "wf", 1, 1, ["EmitWF"], 1000)]
 
 
 def all_scenarios(run, cap_quick, cap_thorough, only=None):
